@@ -28,9 +28,14 @@
                            has a next step.
      C25_refuted_*         one witness per loop-side site and one for the worker pool: a concrete history after
                            which the loop (all executors) wait for memory of the stalled peer 1, the request of
-                           peer 2 sits in the mailbox (task queue), and no internal label is enabled. *)
+                           peer 2 sits in the mailbox (task queue), and no internal label is enabled.
+     C25_stuck_forever     from any state in which the loop waits on a pending ticket of a stalled peer whose waiting
+                           head does not fit its own allowance (and no executor holds an already granted ticket of
+                           that peer), EVERY label sequence leaves the loop waiting on that peer and every message
+                           that was in the mailbox in place: only the end of the stall (not a label of a stalled peer)
+                           can end the wait.  C25_refuted_*_forever: the four site witnesses are such states. *)
 From Coq Require Import List NArith Bool Lia.
-From GS Require Import Base Alloc AllocProofs Stall StallProofs.
+From GS Require Import Base Alloc AllocProofs Stall StallProofs StallForever.
 Import ListNotations.
 Open Scope N_scope.
 
@@ -120,6 +125,35 @@ Theorem C25_refuted_worker_pool :
   exists tr s, steps wit_cfg (init wit_cfg) tr s /\ pool_blocks_other wit_cfg s 1 2.
 Proof. exact c25_refuted_pool. Qed.
 Print Assumptions C25_refuted_worker_pool.
+
+Theorem C25_stuck_forever : forall c p s tr s', Stuck c p s -> steps c s tr s' ->
+  loop_waits_on s' = Some p /\ exists extra, mailbox s' = mailbox s ++ extra.
+Proof. exact c25_stuck_forever. Qed.
+Print Assumptions C25_stuck_forever.
+
+Theorem C25_refuted_newrequest_forever :
+  exists tr s, steps wit_cfg (init wit_cfg) tr s /\ loop_blocks_other wit_cfg s 1 2 SNewReq /\
+    forall tr' s', steps wit_cfg s tr' s' -> loop_waits_on s' = Some 1 /\ exists extra, mailbox s' = mailbox s ++ extra.
+Proof. exact c25_forever_newreq. Qed.
+Print Assumptions C25_refuted_newrequest_forever.
+
+Theorem C25_refuted_update_forever :
+  exists tr s, steps wit_cfg (init wit_cfg) tr s /\ loop_blocks_other wit_cfg s 1 2 SUpdatePaused /\
+    forall tr' s', steps wit_cfg s tr' s' -> loop_waits_on s' = Some 1 /\ exists extra, mailbox s' = mailbox s ++ extra.
+Proof. exact c25_forever_update. Qed.
+Print Assumptions C25_refuted_update_forever.
+
+Theorem C25_refuted_unpause_forever :
+  exists tr s, steps wit_cfg (init wit_cfg) tr s /\ loop_blocks_other wit_cfg s 1 2 SUnpause /\
+    forall tr' s', steps wit_cfg s tr' s' -> loop_waits_on s' = Some 1 /\ exists extra, mailbox s' = mailbox s ++ extra.
+Proof. exact c25_forever_unpause. Qed.
+Print Assumptions C25_refuted_unpause_forever.
+
+Theorem C25_refuted_update_response_forever :
+  exists tr s, steps wit_cfg (init wit_cfg) tr s /\ loop_blocks_other wit_cfg s 1 2 SApiUpdate /\
+    forall tr' s', steps wit_cfg s tr' s' -> loop_waits_on s' = Some 1 /\ exists extra, mailbox s' = mailbox s ++ extra.
+Proof. exact c25_forever_apiupdate. Qed.
+Print Assumptions C25_refuted_update_response_forever.
 
 (* Non-vacuity.  The guard of C25_partial is satisfiable by a history in which peer 1 is stalled with a full
    allowance, has a paused response that is updated, unpaused without extensions and cancelled, and peer 2
